@@ -1,0 +1,98 @@
+//go:build verif
+
+package bufiox
+
+// Interface contracts of bufiox.Reader / bufiox.Writer (the only thing clients may rely on)
+// and contracts of the default implementation. Comment-only file.
+//
+// Ghost view of a Reader handle:
+//   $u        the unread stream: the bytes the reader will still deliver, in order
+//             (len($u) is how many it will deliver before its source fails)
+//   $readlen  bytes consumed since the last Release
+
+//@ ghost $u string
+//@ ghost $readlen int
+
+//@ pred rdTake(rd, n) = same(rd.$u, old(rd.$u)[n:]) && rd.$readlen == old(rd.$readlen) + n
+//@ pred rdSame(rd) = same(rd.$u, old(rd.$u)) && rd.$readlen == old(rd.$readlen)
+
+//@ iface Reader.Next
+//@   params n
+//@   results p, err
+//@   ensures (err == nil) == (0 <= n && n <= len(old(self.$u)))
+//@   ensures err == nil ==> len(p) == n && eqbytes(p, 0, old(self.$u), 0, n) && rdTake(self, n)
+//@   ensures err != nil ==> isnil(p) && rdSame(self)
+//@   assigns self.$u, self.$readlen
+
+//@ iface Reader.Peek
+//@   params n
+//@   results buf, err
+//@   ensures (err == nil) == (0 <= n && n <= len(old(self.$u)))
+//@   ensures err == nil ==> len(buf) == n && eqbytes(buf, 0, old(self.$u), 0, n)
+//@   ensures err != nil ==> isnil(buf)
+//@   ensures rdSame(self)
+//@   assigns self.$u, self.$readlen
+
+//@ iface Reader.Skip
+//@   params n
+//@   results err
+//@   ensures (err == nil) == (0 <= n && n <= len(old(self.$u)))
+//@   ensures err == nil ==> rdTake(self, n)
+//@   ensures err != nil ==> rdSame(self)
+//@   assigns self.$u, self.$readlen
+
+//@ iface Reader.ReadBinary
+//@   params bs
+//@   results n, err
+//@   ensures 0 <= n && n <= len(bs) && n <= len(old(self.$u)) && eqbytes(bs, 0, old(self.$u), 0, n) && rdTake(self, n)
+//@   ensures (n == len(bs)) == (len(bs) <= len(old(self.$u)))
+//@   ensures n < len(bs) ==> err != nil
+//@   ensures n == len(bs) ==> err == nil
+//@   assigns bs[0:len(bs)], self.$u, self.$readlen
+
+//@ iface Reader.ReadLen
+//@   results n
+//@   ensures n == self.$readlen
+
+//@ iface Reader.Release
+//@   params e
+//@   results err
+//@   ensures same(self.$u, old(self.$u)) && self.$readlen == 0
+//@   assigns self.$u, self.$readlen
+
+// Ghost view of a Writer handle:
+//   $wlen       WrittenLen: bytes malloc'd / written since the last Flush
+//   $nchunks    number of regions handed out / payloads accepted since the last Flush
+//   $lastchunk  the most recent region (Malloc) or payload copy (WriteBinary); it backs the
+//               stream positions [$wlen - len($lastchunk), $wlen) until Flush
+
+//@ ghost $wlen int
+//@ ghost $nchunks int
+//@ ghost $lastchunk []byte
+//@ ghost $prevchunk []byte
+
+//@ pred wrGrew(wr, n) = wr.$wlen == old(wr.$wlen) + n && wr.$nchunks == old(wr.$nchunks) + 1 && len(wr.$lastchunk) == n && same(wr.$prevchunk, old(wr.$lastchunk))
+//@ pred wrSame(wr) = wr.$wlen == old(wr.$wlen) && wr.$nchunks == old(wr.$nchunks) && same(wr.$lastchunk, old(wr.$lastchunk)) && same(wr.$prevchunk, old(wr.$prevchunk))
+
+//@ iface Writer.Malloc
+//@   params n
+//@   results buf, err
+//@   ensures err == nil ==> 0 <= n && len(buf) == n && writable(buf) && !isnil(buf) && wrGrew(self, n) && same(self.$lastchunk, buf)
+//@   ensures err != nil ==> isnil(buf) && wrSame(self)
+//@   assigns self.$wlen, self.$nchunks, self.$lastchunk, self.$prevchunk
+
+//@ iface Writer.WriteBinary
+//@   params bs
+//@   results n, err
+//@   ensures err == nil ==> n == len(bs) && wrGrew(self, n) && eqbytes(self.$lastchunk, 0, bs, 0, n)
+//@   ensures err != nil ==> wrSame(self)
+//@   assigns self.$wlen, self.$nchunks, self.$lastchunk, self.$prevchunk
+
+//@ iface Writer.WrittenLen
+//@   results length
+//@   ensures length == self.$wlen
+
+//@ iface Writer.Flush
+//@   results err
+//@   ensures err == nil ==> self.$wlen == 0 && self.$nchunks == 0
+//@   assigns self.$wlen, self.$nchunks, self.$lastchunk, self.$prevchunk
